@@ -221,6 +221,12 @@ func init() {
 			leaves: map[string]string{"len(packed)": "plen", "byteLen": "bytelen"}}, "if:byteLen")
 		o.c19CurveBits(x)
 
+		o.c19SignPipeline()
+
+		for _, fn := range [][3]string{{d, "", "RemoveElements"}, {d, "SignOptions", "c14nNamespace"}, {d, "", "HashAlgorithm"}, {d, "", "addCerts"},
+			{"lib/appmanifest", "", "setSigIds"}, {"lib/appmanifest", "", "makeManifestHash"}} {
+			fingerprint(fn[0], fn[1], fn[2])
+		}
 		for _, fn := range [][3]string{{d, "", "SerializeCanonical"}, {d, "", "getDecl"}, {d, "", "putDecl"}, {d, "", "walkAttributes"}, {d, "", "usesSpace"},
 			{d, "", "pullDown"}, {d, "", "pushDown"}, {d, "", "Sign"}, {d, "", "SignEnveloping"}, {d, "", "buildSignedInfo"}, {d, "", "finishSignature"},
 			{d, "", "hashCanon"}, {d, "", "hashAlgs"}, {d, "", "addKeyInfo"}, {d, "", "Verify"}, {d, "", "parseAlgs"}, {d, "", "parseKey"},
@@ -367,4 +373,610 @@ func (o *out) c19CurveBits(dir string) {
 	}
 	_ = p
 	o.f("Definition defined_curve_bits : list Z := [%s]. (* %s.DefinedCurves[*].Bits *)\n", strings.Join(bits, "; "), dir)
+}
+
+// ====================================================================================================================
+// Signing / verifying pipelines (lib/xmldsig Sign, RemoveElements, hashCanon, buildSignedInfo, finishSignature, hashAlgs,
+// Verify, parseAlgs; lib/appmanifest Sign and its helpers).  The pipelines are translated as ORDERED programs: one
+// instruction per top-level statement, so the model digests exactly the tree state the code digests.
+
+// c19Str evaluates a constant string expression (literal, package constant, concatenation).
+func c19Str(dir string, e ast.Expr) (string, bool) {
+	switch x := e.(type) {
+	case *ast.BasicLit:
+		if x.Kind == token.STRING {
+			s, err := strconvUnquote(x.Value)
+			return s, err == nil
+		}
+	case *ast.ParenExpr:
+		return c19Str(dir, x.X)
+	case *ast.Ident:
+		ce, _, _, _ := findConstExpr(dir, x.Name)
+		if ce != nil {
+			return c19Str(dir, ce)
+		}
+	case *ast.SelectorExpr: // xmldsig.NsXMLDsig from another package
+		if id, ok := x.X.(*ast.Ident); ok && id.Name == "xmldsig" {
+			ce, _, _, _ := findConstExpr("lib/xmldsig", x.Sel.Name)
+			if ce != nil {
+				return c19Str("lib/xmldsig", ce)
+			}
+		}
+	case *ast.BinaryExpr:
+		if x.Op == token.ADD {
+			a, ok1 := c19Str(dir, x.X)
+			b, ok2 := c19Str(dir, x.Y)
+			return a + b, ok1 && ok2
+		}
+	}
+	return "", false
+}
+
+func strconvUnquote(s string) (string, error) {
+	if len(s) >= 2 && s[0] == '`' {
+		return s[1 : len(s)-1], nil
+	}
+	var out []byte
+	if len(s) < 2 {
+		return "", fmt.Errorf("bad literal")
+	}
+	body := s[1 : len(s)-1]
+	for i := 0; i < len(body); i++ {
+		c := body[i]
+		if c != '\\' {
+			out = append(out, c)
+			continue
+		}
+		i++
+		if i >= len(body) {
+			return "", fmt.Errorf("bad escape")
+		}
+		switch body[i] {
+		case 'n':
+			out = append(out, '\n')
+		case 'r':
+			out = append(out, '\r')
+		case 't':
+			out = append(out, '\t')
+		case '\\', '"', '\'':
+			out = append(out, body[i])
+		default:
+			return "", fmt.Errorf("unsupported escape \\%c", body[i])
+		}
+	}
+	return string(out), nil
+}
+
+func (o *out) c19Bytes(coqName, val, from string) {
+	o.f("Definition %s : list Z := %s. (* %s = %q *)\n", coqName, bytesLit([]byte(val)), from, val)
+}
+
+func norm(s string) string { return strings.Join(strings.Fields(s), " ") }
+
+// c19StrLits: every string literal / string constant argument of the function body in source order (calls to errors.New and
+// fmt.Errorf are skipped: messages are not part of the behaviour modelled).
+func (o *out) c19StrLits(dir, recv, name, coqName string) {
+	p, fd := findFunc(dir, recv, name)
+	if fd == nil {
+		o.brokenDef(coqName, "function "+dir+":"+recv+"."+name+" not found")
+		return
+	}
+	var items, shown []string
+	ast.Inspect(fd.Body, func(n ast.Node) bool {
+		if ce, ok := n.(*ast.CallExpr); ok {
+			fn := printNode(p.fset, ce.Fun)
+			if fn == "errors.New" || fn == "fmt.Errorf" {
+				return false
+			}
+			for _, a := range ce.Args {
+				switch a.(type) {
+				case *ast.BasicLit, *ast.Ident, *ast.SelectorExpr:
+					if s, ok := c19Str(dir, a); ok {
+						items = append(items, bytesLit([]byte(s)))
+						shown = append(shown, fmt.Sprintf("%q", s))
+					}
+				}
+			}
+		}
+		return true
+	})
+	o.f("Definition %s : list (list Z) := [%s].\n(* string arguments of %s:%s.%s in source order: %s *)\n", coqName, strings.Join(items, "; "), dir, recv, name,
+		strings.ReplaceAll(strings.Join(shown, " "), "*)", "* )"))
+}
+
+// c19MapTable: a package-level map[crypto.Hash]string literal as an association list keyed by the numeric crypto.Hash value.
+var c19HashIDs = map[string]int{"crypto.MD4": 1, "crypto.MD5": 2, "crypto.SHA1": 3, "crypto.SHA224": 4, "crypto.SHA256": 5, "crypto.SHA384": 6, "crypto.SHA512": 7}
+
+func (o *out) c19MapTable(dir, goName, coqName string) {
+	ce, p, _, _ := findConstExpr(dir, goName)
+	cl, ok := ce.(*ast.CompositeLit)
+	if ce == nil || !ok {
+		o.brokenDef(coqName, "map literal "+dir+"."+goName+" not found")
+		return
+	}
+	var items []string
+	for _, e := range cl.Elts {
+		kv, ok := e.(*ast.KeyValueExpr)
+		if !ok {
+			o.brokenDef(coqName, "unexpected element in "+goName)
+			return
+		}
+		id, ok := c19HashIDs[printNode(p.fset, kv.Key)]
+		s, ok2 := c19Str(dir, kv.Value)
+		if !ok || !ok2 {
+			o.brokenDef(coqName, "untranslatable entry "+printNode(p.fset, kv)+" in "+goName)
+			return
+		}
+		items = append(items, fmt.Sprintf("(%d, %s)", id, bytesLit([]byte(s))))
+	}
+	o.f("Definition %s : list (Z * list Z) := [%s]. (* %s.%s keyed by crypto.Hash *)\n", coqName, strings.Join(items, "; "), dir, goName)
+}
+
+func (o *out) c19StrList(dir, goName, coqName string) {
+	ce, p, _, _ := findConstExpr(dir, goName)
+	cl, ok := ce.(*ast.CompositeLit)
+	if ce == nil || !ok {
+		o.brokenDef(coqName, "slice literal "+dir+"."+goName+" not found")
+		return
+	}
+	var items []string
+	for _, e := range cl.Elts {
+		s, ok := c19Str(dir, e)
+		if !ok {
+			o.brokenDef(coqName, "untranslatable entry "+printNode(p.fset, e)+" in "+goName)
+			return
+		}
+		items = append(items, bytesLit([]byte(s)))
+	}
+	o.f("Definition %s : list (list Z) := [%s]. (* %s.%s *)\n", coqName, strings.Join(items, "; "), dir, goName)
+}
+
+// who: which tree variable a call works on
+func c19Who(s string) int {
+	switch s {
+	case "parent":
+		return 0
+	case "root":
+		return 1
+	case "signature":
+		return 2
+	case "signedinfo":
+		return 3
+	case "license":
+		return 4
+	case "sigDestNode":
+		return 5
+	case "reference":
+		return 6
+	case "object":
+		return 7
+	}
+	return 99
+}
+
+func isErrCheck(p *pkgInfo, s ast.Stmt) bool {
+	is, ok := s.(*ast.IfStmt)
+	if !ok || is.Init != nil || is.Else != nil || norm(printNode(p.fset, is.Cond)) != "err != nil" || len(is.Body.List) != 1 {
+		return false
+	}
+	rs, ok := is.Body.List[0].(*ast.ReturnStmt)
+	if !ok || len(rs.Results) == 0 {
+		return false
+	}
+	return norm(printNode(p.fset, rs.Results[len(rs.Results)-1])) == "err"
+}
+
+// c19SignProgram: xmldsig.Sign as a list of instructions (opcode, operand).
+//
+//	0 pubKey := privKey.Public()          1 key/certificate guard (condition: xs_bad_key)      2 RemoveElements(<who>, tag)
+//	3 refDigest, err := hashCanon(<who>)  4 if err != nil { return err }                        5 hashAlg, sigAlg, err := hashAlgs(...)
+//	6 signature := <who>.CreateElement(tag)   7 signature.CreateAttr(key, value)
+//	8 signedinfo := buildSignedInfo(signature, refId, hashAlg, sigAlg, refDigest, opts)  (operand 0 = arguments in that order)
+//	9 return finishSignature(signature, signedinfo, hash, privKey, certs, opts)           (operand 0 = arguments in that order)
+func (o *out) c19SignProgram(dir string) {
+	p, fd := findFunc(dir, "", "Sign")
+	if fd == nil {
+		o.brokenDef("xs_prog", "xmldsig.Sign not found")
+		return
+	}
+	var prog, shown []string
+	emit := func(op, arg int, s ast.Stmt) {
+		prog = append(prog, fmt.Sprintf("(%d, %d)", op, arg))
+		shown = append(shown, fmt.Sprintf("%d:%s", op, norm(printNode(p.fset, s))))
+	}
+	consts := map[string]string{}
+	bad := ""
+	callOf := func(e ast.Expr) (*ast.CallExpr, string) {
+		ce, ok := e.(*ast.CallExpr)
+		if !ok {
+			return nil, ""
+		}
+		return ce, printNode(p.fset, ce.Fun)
+	}
+	args := func(ce *ast.CallExpr) string {
+		var a []string
+		for _, x := range ce.Args {
+			a = append(a, norm(printNode(p.fset, x)))
+		}
+		return strings.Join(a, ",")
+	}
+	for _, s := range fd.Body.List {
+		txt := norm(printNode(p.fset, s))
+		switch x := s.(type) {
+		case *ast.AssignStmt:
+			lhs := ""
+			for i, l := range x.Lhs {
+				if i > 0 {
+					lhs += ","
+				}
+				lhs += printNode(p.fset, l)
+			}
+			if len(x.Rhs) != 1 {
+				bad = txt
+				break
+			}
+			ce, fn := callOf(x.Rhs[0])
+			switch {
+			case lhs == "pubKey" && txt == "pubKey := privKey.Public()":
+				emit(0, 0, s)
+			case lhs == "refDigest,err" && fn == "hashCanon" && len(ce.Args) == 2 && printNode(p.fset, ce.Args[1]) == "hash":
+				emit(3, c19Who(printNode(p.fset, ce.Args[0])), s)
+			case lhs == "hashAlg,sigAlg,err" && fn == "hashAlgs" && args(ce) == "hash,pubKey,opts":
+				emit(5, 0, s)
+			case lhs == "signature" && strings.HasSuffix(fn, ".CreateElement") && len(ce.Args) == 1:
+				tag, ok := c19Str(dir, ce.Args[0])
+				if !ok {
+					bad = txt
+					break
+				}
+				consts["xs_create_tag"] = tag
+				emit(6, c19Who(strings.TrimSuffix(fn, ".CreateElement")), s)
+			case lhs == "signedinfo" && fn == "buildSignedInfo" && len(ce.Args) == 6:
+				rid, ok := c19Str(dir, ce.Args[1])
+				if !ok {
+					bad = txt
+					break
+				}
+				consts["xs_ref_id"] = rid
+				a := 99
+				if norm(printNode(p.fset, ce.Args[0])) == "signature" && norm(printNode(p.fset, ce.Args[2])) == "hashAlg" && norm(printNode(p.fset, ce.Args[3])) == "sigAlg" &&
+					norm(printNode(p.fset, ce.Args[4])) == "refDigest" && norm(printNode(p.fset, ce.Args[5])) == "opts" {
+					a = 0
+				}
+				emit(8, a, s)
+			default:
+				bad = txt
+			}
+		case *ast.ExprStmt:
+			ce, fn := callOf(x.X)
+			switch {
+			case ce != nil && fn == "RemoveElements" && len(ce.Args) == 2:
+				tag, ok := c19Str(dir, ce.Args[1])
+				if !ok {
+					bad = txt
+					break
+				}
+				consts["xs_remove_tag"] = tag
+				emit(2, c19Who(printNode(p.fset, ce.Args[0])), s)
+			case ce != nil && fn == "signature.CreateAttr" && len(ce.Args) == 2:
+				k, ok1 := c19Str(dir, ce.Args[0])
+				v, ok2 := c19Str(dir, ce.Args[1])
+				if !ok1 || !ok2 {
+					bad = txt
+					break
+				}
+				consts["xs_sigattr_key"], consts["xs_sigattr_val"] = k, v
+				emit(7, 0, s)
+			default:
+				bad = txt
+			}
+		case *ast.IfStmt:
+			switch {
+			case isErrCheck(p, s):
+				emit(4, 0, s)
+			case strings.Contains(txt, "SameKey") && x.Init == nil && x.Else == nil && len(x.Body.List) == 1:
+				if _, ok := x.Body.List[0].(*ast.ReturnStmt); !ok {
+					bad = txt
+					break
+				}
+				emit(1, 0, s)
+			default:
+				bad = txt
+			}
+		case *ast.ReturnStmt:
+			if len(x.Results) == 1 {
+				if ce, fn := callOf(x.Results[0]); ce != nil && fn == "finishSignature" {
+					a := 99
+					if args(ce) == "signature,signedinfo,hash,privKey,certs,opts" {
+						a = 0
+					}
+					emit(9, a, s)
+					break
+				}
+			}
+			bad = txt
+		default:
+			bad = txt
+		}
+		if bad != "" {
+			// never silent: recorded as a broken tie; the instruction list still gets an entry (99: no meaning) so that the
+			// executable model keeps running for the other comparisons while every theorem about Sign fails
+			broken = append(broken, o.name+": xs_prog: statement of xmldsig.Sign not recognised by the translator: "+bad)
+			emit(99, 0, s)
+			bad = ""
+		}
+	}
+	o.f("Definition xs_prog : list (Z * Z) := [%s].\n(* %s:Sign, one instruction per statement: %s *)\n", strings.Join(prog, "; "), dir,
+		strings.ReplaceAll(strings.Join(shown, " | "), "*)", "* )"))
+	for _, k := range []string{"xs_remove_tag", "xs_create_tag", "xs_sigattr_key", "xs_sigattr_val", "xs_ref_id"} {
+		v, ok := consts[k]
+		if !ok {
+			o.brokenDef(k, "no statement of xmldsig.Sign supplies this constant")
+			continue
+		}
+		o.c19Bytes(k, v, dir+":Sign")
+	}
+}
+
+// c19RemoveLoop: the loop of RemoveElements: match condition and the shape (remove without advancing / advance otherwise)
+func (o *out) c19RemoveLoop(dir string) {
+	p, fd := findFunc(dir, "", "RemoveElements")
+	if fd == nil || len(fd.Body.List) != 1 {
+		o.brokenDef("rm_match", "RemoveElements not found or not a single loop")
+		return
+	}
+	fs, ok := fd.Body.List[0].(*ast.ForStmt)
+	if !ok || len(fs.Body.List) < 1 {
+		o.brokenDef("rm_match", "RemoveElements: no for loop")
+		return
+	}
+	var is *ast.IfStmt
+	for _, s := range fs.Body.List {
+		if x, ok := s.(*ast.IfStmt); ok {
+			is = x
+		}
+	}
+	if is == nil {
+		o.brokenDef("rm_match", "RemoveElements: no if in the loop")
+		return
+	}
+	t := o.newTr(p, funcSpec{dir: dir, leaves: map[string]string{"ok": "is_elem", "elem.Tag": "etag", "tag": "tag"},
+		types: map[string]string{"ok": "bool", "elem.Tag": "str", "tag": "str"}})
+	c := t.expr(is.Cond)
+	if t.err != nil {
+		o.brokenDef("rm_match", t.err.Error())
+		return
+	}
+	o.f("Definition rm_match (is_elem : bool) (etag tag : bytes) : bool :=\n  %s.\n(* from %s:RemoveElements : if %s *)\n", c, dir, norm(printNode(p.fset, is.Cond)))
+	initOK := is.Init != nil && norm(printNode(p.fset, is.Init)) == "elem, ok := token.(*etree.Element)"
+	thenOK := len(is.Body.List) == 1 && norm(printNode(p.fset, is.Body.List[0])) == "root.Child = append(root.Child[:i], root.Child[i+1:]...)"
+	elseOK := false
+	if eb, ok := is.Else.(*ast.BlockStmt); ok && len(eb.List) == 1 && norm(printNode(p.fset, eb.List[0])) == "i++" {
+		elseOK = true
+	}
+	loopOK := fs.Post == nil && fs.Init != nil && norm(printNode(p.fset, fs.Init)) == "i := 0" && fs.Cond != nil && norm(printNode(p.fset, fs.Cond)) == "i < len(root.Child)"
+	tokOK := len(fs.Body.List) == 2 && norm(printNode(p.fset, fs.Body.List[0])) == "token := root.Child[i]"
+	o.f("Definition rm_loop_shape : bool := %v. (* for i := 0; i < len(root.Child); { token := root.Child[i]; if elem, ok := token.(*etree.Element); <match> { remove i } else { i++ } } *)\n",
+		initOK && thenOK && elseOK && loopOK && tokOK)
+}
+
+// c19HashAlgs: lookup tables, the key-type switch and the algorithm-URI decisions of hashAlgs
+func (o *out) c19HashAlgs(dir string) {
+	o.c19MapTable(dir, "hashNames", "hash_names")
+	o.c19MapTable(dir, "HashUris", "hash_uris")
+	o.c19StrList(dir, "nsPrefixes", "ns_prefixes")
+	o.condOf(funcSpec{dir: dir, name: "hashAlgs", coqName: "ha_no_hash", params: "(hash_name : bytes)", retType: "bool",
+		leaves: map[string]string{"hashName": "hash_name"}, types: map[string]string{"hashName": "str"}}, "if:hashName", 0)
+	p, fd := findFunc(dir, "", "hashAlgs")
+	if fd == nil {
+		o.brokenDef("ha_pub_names", "hashAlgs not found")
+		return
+	}
+	// type switch on the public key: key kind 0 = *rsa.PublicKey, 1 = *ecdsa.PublicKey
+	var ts *ast.TypeSwitchStmt
+	tsIdx := -1
+	for i, s := range fd.Body.List {
+		if x, ok := s.(*ast.TypeSwitchStmt); ok && ts == nil {
+			ts, tsIdx = x, i
+		}
+	}
+	if ts == nil {
+		o.brokenDef("ha_pub_names", "no type switch in hashAlgs")
+		return
+	}
+	kinds := map[string]int{"*rsa.PublicKey": 0, "*ecdsa.PublicKey": 1}
+	var items []string
+	for _, c := range ts.Body.List {
+		cc := c.(*ast.CaseClause)
+		if cc.List == nil {
+			if len(cc.Body) != 1 || !strings.HasPrefix(norm(printNode(p.fset, cc.Body[0])), "return \"\", \"\", errors.New(") {
+				o.brokenDef("ha_pub_names", "default clause of the key-type switch is not an error return")
+				return
+			}
+			continue
+		}
+		if len(cc.Body) != 1 {
+			o.brokenDef("ha_pub_names", "unexpected clause body in the key-type switch")
+			return
+		}
+		as, ok := cc.Body[0].(*ast.AssignStmt)
+		if !ok || len(as.Lhs) != 1 || printNode(p.fset, as.Lhs[0]) != "pubName" {
+			o.brokenDef("ha_pub_names", "clause does not assign pubName")
+			return
+		}
+		v, ok := c19Str(dir, as.Rhs[0])
+		if !ok {
+			o.brokenDef("ha_pub_names", "pubName not a constant")
+			return
+		}
+		for _, te := range cc.List {
+			k, ok := kinds[printNode(p.fset, te)]
+			if !ok {
+				o.brokenDef("ha_pub_names", "unknown key type "+printNode(p.fset, te))
+				return
+			}
+			items = append(items, fmt.Sprintf("(%d, %s)", k, bytesLit([]byte(v))))
+		}
+	}
+	o.f("Definition ha_pub_names : list (Z * list Z) := [%s]. (* %s:hashAlgs switch pubKey.(type): 0 rsa, 1 ecdsa; anything else is an error *)\n", strings.Join(items, "; "), dir)
+	// the statements after the switch: one loop-free decision returning (hashAlg, sigAlg, err)
+	pp, f := c19Parse(dir + "/sign.go")
+	fd2 := c19FindFunc(f, "hashAlgs")
+	if fd2 == nil || tsIdx+1 >= len(fd2.Body.List) {
+		o.brokenDef("ha_tail", "hashAlgs tail not found")
+		return
+	}
+	strs := map[string]bool{"NsXMLDsig": true, "NsXMLDsigMore": true, "hashName": true, "pubName": true, "HashUris[hash]": true}
+	c19RewriteStrings(pp, fd2, strs)
+	types := map[string]string{"NsXMLDsig": "str", "NsXMLDsigMore": "str", "hashName": "str", "pubName": "str", "HashUris[hash]": "str",
+		"opts.MsCompatHashNames": "bool", "hashAlg": "str", "sigAlg": "str", "nil": "bool"}
+	o.c19Body(pp, funcSpec{dir: dir, coqName: "ha_tail", params: "(hash_name pub_name hash_uri : bytes) (ms : bool)", retType: "bytes * bytes * bool",
+		leaves: map[string]string{"NsXMLDsig": "ns_xmldsig", "NsXMLDsigMore": "ns_xmldsig_more", "hashName": "hash_name", "pubName": "pub_name",
+			"HashUris[hash]": "hash_uri", "opts.MsCompatHashNames": "ms", "hashAlg": "v_hashAlg", "sigAlg": "v_sigAlg", "nil": "false"},
+		types: types, calls: map[string]string{"strcat": "app"}, ignore: []string{"var hashAlg, sigAlg string"}},
+		fd2.Body.List[tsIdx+1:], dir+":hashAlgs (after the key-type switch; third component: error)")
+}
+
+func (o *out) c19SignPipeline() {
+	const d = "lib/xmldsig"
+	const am = "lib/appmanifest"
+	str := map[string]string{}
+	o.f("\n(* ---- signing / verifying pipelines *)\n")
+	// ---- Sign
+	o.c19SignProgram(d)
+	o.condOf(funcSpec{dir: d, name: "Sign", coqName: "xs_bad_key", params: "(ncerts : Z) (same_key : bool)", retType: "bool",
+		leaves: map[string]string{"len(certs)": "ncerts", "x509tools.SameKey(pubKey, certs[0].PublicKey)": "same_key"},
+		types:  map[string]string{"x509tools.SameKey(pubKey, certs[0].PublicKey)": "bool"}}, "if:certs", 0)
+	o.c19RemoveLoop(d)
+	// ---- hashCanon
+	o.callOrder(d, "", "hashCanon", "hc_call_order", []string{"SerializeCanonical", "New", "Write", "Sum"})
+	o.hasStmt(d, "", "hashCanon", "canon, err := SerializeCanonical(root)", "hc_serializes_root")
+	o.hasStmt(d, "", "hashCanon", "d.Write(canon)", "hc_digests_canon")
+	o.hasStmt(d, "", "hashCanon", "return d.Sum(nil), nil", "hc_returns_sum")
+	// ---- c14nNamespace, buildSignedInfo
+	o.decisionFunc(funcSpec{dir: d, recv: "SignOptions", name: "c14nNamespace", coqName: "c14n_ns", params: "(use_rec : bool)", retType: "bytes",
+		leaves: map[string]string{"s.UseRecC14n": "use_rec", "AlgXMLExcC14nRec": "alg_exc_c14n_rec", "AlgXMLExcC14n": "alg_exc_c14n"},
+		types:  map[string]string{"s.UseRecC14n": "bool"}})
+	rl := map[string]string{"refId": "ref_id"}
+	rt := map[string]string{"refId": "str"}
+	o.condOf(funcSpec{dir: d, name: "buildSignedInfo", coqName: "bsi_uri_empty", params: "(ref_id : bytes)", retType: "bool", leaves: rl, types: rt}, "if:refId", 0)
+	o.condOf(funcSpec{dir: d, name: "buildSignedInfo", coqName: "bsi_enveloped", params: "(ref_id : bytes)", retType: "bool", leaves: rl, types: rt}, "if:refId", 1)
+	o.c19StrLits(d, "", "buildSignedInfo", "bsi_strs")
+	o.hasStmt(d, "", "buildSignedInfo", "reference.CreateElement(\"DigestValue\").SetText(base64.StdEncoding.EncodeToString(refDigest))", "bsi_digest_text_is_b64_refdigest")
+	// ---- finishSignature
+	o.callOrder(d, "", "finishSignature", "fin_call_order", []string{"hashCanon", "privKey.Sign", "UnmarshalEcdsaSignature", "Pack", "CreateElement", "NewElement", "addKeyInfo", "addCerts", "AddChild"})
+	o.hasStmt(d, "", "finishSignature", "siDigest, err := hashCanon(signedinfo, hash)", "fin_digests_signedinfo")
+	o.hasStmt(d, "", "finishSignature", "sig, err := privKey.Sign(rand.Reader, siDigest, hash)", "fin_signs_sidigest")
+	o.hasStmt(d, "", "finishSignature", "signature.CreateElement(\"SignatureValue\").SetText(base64.StdEncoding.EncodeToString(sig))", "fin_sigvalue_is_b64_sig")
+	o.hasStmt(d, "", "finishSignature", "signature.AddChild(keyinfo)", "fin_attaches_keyinfo")
+	o.condOf(funcSpec{dir: d, name: "finishSignature", coqName: "fin_kv_cond", params: "(include_kv : bool)", retType: "bool",
+		leaves: map[string]string{"opts.IncludeKeyValue": "include_kv"}, types: map[string]string{"opts.IncludeKeyValue": "bool"}}, "if:IncludeKeyValue")
+	o.condOf(funcSpec{dir: d, name: "finishSignature", coqName: "fin_x509_cond", params: "(include_x509 : bool) (ncerts : Z)", retType: "bool",
+		leaves: map[string]string{"opts.IncludeX509": "include_x509", "len(certs)": "ncerts"}, types: map[string]string{"opts.IncludeX509": "bool"}}, "if:IncludeX509")
+	o.condOf(funcSpec{dir: d, name: "finishSignature", coqName: "fin_attach_cond", params: "(nkids : Z)", retType: "bool",
+		leaves: map[string]string{"len(keyinfo.Child)": "nkids"}}, "if:keyinfo.Child")
+	o.c19StrLits(d, "", "finishSignature", "fin_strs")
+	// ---- hashAlgs / parseAlgs / HashAlgorithm
+	o.c19HashAlgs(d)
+	o.condOf(funcSpec{dir: d, name: "parseAlgs", coqName: "pa_hash_unavailable", params: "(available : bool)", retType: "bool",
+		leaves: map[string]string{"hash.Available()": "available"}, types: map[string]string{"hash.Available()": "bool"}}, "if:Available")
+	o.condOf(funcSpec{dir: d, name: "parseAlgs", coqName: "pa_bad_suffix", params: "(has_suffix : bool)", retType: "bool",
+		leaves: map[string]string{"strings.HasSuffix(sigAlg, \"-\"+hashAlg)": "has_suffix"}, types: map[string]string{"strings.HasSuffix(sigAlg, \"-\"+hashAlg)": "bool"}}, "if:HasSuffix")
+	str = map[string]string{"sigAlg": "str"}
+	o.condOf(funcSpec{dir: d, name: "parseAlgs", coqName: "pa_bad_pubtype", params: "(sig_alg : bytes)", retType: "bool",
+		leaves: map[string]string{"sigAlg": "sig_alg"}, types: str}, "if:sigAlg !=")
+	// ---- Verify
+	vl := map[string]string{"len(sigs)": "nsigs", "sig.CanonicalizationMethod.Algorithm": "cm", "AlgXMLExcC14n": "alg_exc_c14n", "AlgXMLExcC14nRec": "alg_exc_c14n_rec",
+		"AlgDsigEnvelopedSignature": "alg_enveloped", "sig.Reference.URI": "uri", "len(sig.Reference.Transforms)": "ntr",
+		"sig.Reference.Transforms[0].Algorithm": "t0", "sig.Reference.Transforms[1].Algorithm": "t1", "sig.Reference.URI[0]": "uri0",
+		"len(refGiven)": "given_len", "len(refCalc)": "calc_len", "err != nil": "dec_err", "hmac.Equal(refGiven, refCalc)": "equal",
+		"parent == nil": "no_parent", "reference == nil": "no_reference", "signedinfo == nil": "no_signedinfo", "root == nil": "no_root"}
+	vt := map[string]string{"sig.CanonicalizationMethod.Algorithm": "str", "AlgXMLExcC14n": "str", "AlgXMLExcC14nRec": "str", "AlgDsigEnvelopedSignature": "str",
+		"sig.Reference.URI": "str", "sig.Reference.Transforms[0].Algorithm": "str", "sig.Reference.Transforms[1].Algorithm": "str",
+		"err != nil": "bool", "hmac.Equal(refGiven, refCalc)": "bool", "parent == nil": "bool", "reference == nil": "bool", "signedinfo == nil": "bool", "root == nil": "bool"}
+	vc := func(coq, params, marker string, nth int) {
+		o.condOf(funcSpec{dir: d, name: "Verify", coqName: coq, params: params, retType: "bool", leaves: vl, types: vt}, marker, nth)
+	}
+	vc("xv_none", "(nsigs : Z)", "if:len(sigs)", 0)
+	vc("xv_multi", "(nsigs : Z)", "if:len(sigs)", 1)
+	vc("xv_bad_c14n", "(cm : bytes)", "if:sig.CanonicalizationMethod.Algorithm", 0)
+	vc("xv_no_signedinfo", "(no_signedinfo : bool)", "if:signedinfo", 0)
+	vc("xv_enveloped", "(uri : bytes)", "if:sig.Reference.URI ==", 0)
+	vc("xv_bad_env_transforms", "(ntr : Z) (t0 t1 : bytes)", "if:sig.Reference.Transforms", 0)
+	vc("xv_no_parent", "(no_parent : bool)", "if:parent", 0)
+	vc("xv_bad_obj_transforms", "(ntr : Z) (t0 : bytes)", "if:sig.Reference.Transforms", 1)
+	vc("xv_bad_uri", "(uri0 : Z)", "if:sig.Reference.URI[0]", 0)
+	vc("xv_no_reference", "(no_reference : bool)", "if:reference", 0)
+	vc("xv_bad_digest_len", "(given_len calc_len : Z) (dec_err : bool)", "if:len(refGiven)", 0)
+	vc("xv_digest_differs", "(equal : bool)", "if:hmac.Equal", 0)
+	o.callOrder(d, "", "Verify", "xv_call_order", []string{"root.Copy", "FindElements", "SerializeCanonical", "xml.Unmarshal", "parseAlgs", "parseKey", "SelectElement", "hashCanon",
+		"UnpackEcdsaSignature", "x509tools.Verify", "sigEl.Parent", "RemoveChild", "FindElement", "hmac.Equal"})
+	o.hasStmt(d, "", "Verify", "root = root.Copy()", "xv_copies_root")
+	o.hasStmt(d, "", "Verify", "sigs := root.FindElements(sigpath)", "xv_finds_by_path")
+	o.hasStmt(d, "", "Verify", "sigEl := sigs[0]", "xv_takes_first")
+	o.hasStmt(d, "", "Verify", "sigbytes, err := SerializeCanonical(sigEl)", "xv_parses_canonical_sig")
+	o.hasStmt(d, "", "Verify", "signedinfo := sigEl.SelectElement(\"SignedInfo\")", "xv_selects_signedinfo")
+	o.hasStmt(d, "", "Verify", "siCalc, err := hashCanon(signedinfo, hash)", "xv_digests_signedinfo")
+	o.hasStmt(d, "", "Verify", "parent := sigEl.Parent()", "xv_parent_of_sig")
+	o.hasStmt(d, "", "Verify", "parent.RemoveChild(sigEl)", "xv_removes_sig")
+	o.hasStmt(d, "", "Verify", "reference = root", "xv_reference_is_root")
+	o.hasStmt(d, "", "Verify", "refCalc, err := hashCanon(reference, hash)", "xv_digests_reference")
+	o.hasStmt(d, "", "Verify", "refGiven, err := base64.StdEncoding.DecodeString(sig.Reference.DigestValue)", "xv_given_is_b64_digestvalue")
+	// ---- appmanifest.Sign and helpers
+	o.callOrder(am, "", "Sign", "am_call_order", []string{"ReadFromString", "doc.Root", "setAssemblyIdentity", "setPublisherIdentity", "xmldsig.Sign", "setSigIds", "makeManifestHash",
+		"makeLicense", "license.AddChild", "keyinfo.CreateElement", "reldata.CreateAttr", "reldata.AddChild", "WriteToBytes"})
+	o.c19SignCalls(am)
+	o.c19StrLits(am, "", "Sign", "am_sign_strs")
+	o.hasStmt(am, "", "Sign", "sigopts := xmldsig.SignOptions{MsCompatHashNames: true, IncludeKeyValue: true}", "am_opts_ms_kv")
+	o.hasStmt(am, "", "Sign", "sigopts.IncludeX509 = true", "am_second_includes_x509")
+	o.hasStmt(am, "", "Sign", "sig, keyinfo := setSigIds(root, \"StrongNameSignature\", \"StrongNameKeyInfo\")", "am_ids_primary")
+	o.hasStmt(am, "", "Sign", "aSig, _ := setSigIds(sigDestNode, \"AuthenticodeSignature\", \"\")", "am_ids_secondary")
+	o.hasStmt(am, "", "Sign", "manifestHash := makeManifestHash(sig)", "am_hash_of_primary")
+	o.hasStmt(am, "", "Sign", "license, sigDestNode := makeLicense(asi, subjectName, manifestHash)", "am_license_args")
+	o.c19StrLits(am, "", "setAssemblyIdentity", "am_asi_strs")
+	o.callOrder(am, "", "setAssemblyIdentity", "am_asi_order", []string{"PublicKeyToken", "SelectElement", "CreateAttr"})
+	o.condOf(funcSpec{dir: am, name: "setAssemblyIdentity", coqName: "am_asi_missing", params: "(no_asi : bool)", retType: "bool",
+		leaves: map[string]string{"asi == nil": "no_asi"}, types: map[string]string{"asi == nil": "bool"}}, "if:asi")
+	o.c19StrLits(am, "", "setPublisherIdentity", "am_pub_strs")
+	o.callOrder(am, "", "setPublisherIdentity", "am_pub_order", []string{"PublisherIdentity", "RemoveElements", "CreateElement", "CreateAttr"})
+	o.c19StrLits(am, "", "makeLicense", "am_license_strs")
+	o.callOrder(am, "", "makeLicense", "am_license_order", []string{"NewElement", "CreateAttr", "CreateElement", "Copy", "AddChild", "SetText"})
+	o.hasStmt(am, "", "makeLicense", "massy.Space = \"as\"", "am_license_asi_prefix")
+	o.c19StrLits(am, "", "setSigIds", "am_ids_strs")
+	o.condOf(funcSpec{dir: am, name: "setSigIds", coqName: "am_ids_sig_cond", params: "(sig_name : bytes)", retType: "bool",
+		leaves: map[string]string{"sigName": "sig_name"}, types: map[string]string{"sigName": "str"}}, "if:sigName")
+	o.condOf(funcSpec{dir: am, name: "setSigIds", coqName: "am_ids_ki_cond", params: "(keyinfo_name : bytes)", retType: "bool",
+		leaves: map[string]string{"keyinfoName": "keyinfo_name"}, types: map[string]string{"keyinfoName": "str"}}, "if:keyinfoName")
+	o.c19StrLits(am, "", "makeManifestHash", "am_mh_strs")
+	for _, c := range [][2]string{{"NsMsRel", "ns_msrel"}, {"NsMpeg21", "ns_mpeg21"}, {"NsAuthenticode", "ns_authenticode"}} {
+		o.constString(am, c[0], c[1])
+	}
+	// ---- appmanifest.Verify
+	o.callOrder(am, "", "Verify", "amv_call_order", []string{"ReadFromString", "doc.Root", "xmldsig.Verify", "FindElement", "SameKey", "SelectElement", "PublicKeyToken"})
+	o.c19StrLits(am, "", "Verify", "amv_strs")
+}
+
+// c19SignCalls: the (root, parent) arguments of every xmldsig.Sign call in appmanifest.Sign, in source order
+func (o *out) c19SignCalls(dir string) {
+	p, fd := findFunc(dir, "", "Sign")
+	if fd == nil {
+		o.brokenDef("am_sign_args", "appmanifest.Sign not found")
+		return
+	}
+	var items, shown []string
+	ast.Inspect(fd.Body, func(n ast.Node) bool {
+		if ce, ok := n.(*ast.CallExpr); ok && printNode(p.fset, ce.Fun) == "xmldsig.Sign" && len(ce.Args) == 6 {
+			a0, a1 := printNode(p.fset, ce.Args[0]), printNode(p.fset, ce.Args[1])
+			rest := 99
+			if norm(printNode(p.fset, ce.Args[2])) == "opts.HashFunc()" && norm(printNode(p.fset, ce.Args[3])) == "cert.Signer()" &&
+				norm(printNode(p.fset, ce.Args[4])) == "cert.Chain()" && norm(printNode(p.fset, ce.Args[5])) == "sigopts" {
+				rest = 0
+			}
+			items = append(items, fmt.Sprintf("(%d, %d, %d)", c19Who(a0), c19Who(a1), rest))
+			shown = append(shown, a0+","+a1)
+		}
+		return true
+	})
+	o.f("Definition am_sign_args : list (Z * Z * Z) := [%s]. (* %s:Sign calls xmldsig.Sign(%s); 1 root 4 license 5 sigDestNode; third: 0 = (opts.HashFunc(), cert.Signer(), cert.Chain(), sigopts) *)\n",
+		strings.Join(items, "; "), dir, strings.Join(shown, " ; "))
 }
